@@ -214,3 +214,98 @@ Theorem C06_source_range_for_length_is_model : forall start e l,
   = Some (pv_of_range (range_for_length (Range start e) l)).
 Proof. exact gen_rfl_eq. Qed.
 Print Assumptions C06_source_range_for_length_is_model.
+
+(* ====================================================================================================
+   Content-Range TEXT layer (Model/C06_ContentRangeText.v): _rx_content_range, ContentRange.parse,
+   descriptors.parse_content_range, str(ContentRange), descriptors.serialize_content_range. *)
+Require Import Webob.Lib.Rx Webob.Model.C06_ContentRangeText Webob.Gen.C06_crx
+               Webob.Proofs.C06_crtext Webob.Proofs.C06_crrx.
+
+(* the pattern AS COMPILED IN THE SOURCE TREE NOW (Gen/C06_crx.v) is the one the scanner was written for *)
+Theorem C06_cr_rx_source_is_spec : cr_rx = cr_rx_spec /\ cr_rx_groups = 3%N.
+Proof. exact gen_rx_is_spec. Qed.
+Print Assumptions C06_cr_rx_source_is_spec.
+
+(* `_rx_content_range.match(h)` succeeds exactly when the scanner does, for every text h *)
+Theorem C06_cr_scan_iff_rx : forall h,
+  match_content_range h <> None <-> exists p t, h = p ++ t /\ matches cr_rx p.
+Proof. exact scan_iff_rx. Qed.
+Print Assumptions C06_cr_scan_iff_rx.
+
+(* ... and the groups it returns spell the matched prefix: "bytes " (s "-" e | "*") "/" (l | "*") *)
+Theorem C06_cr_scan_groups : forall h se l, match_content_range h = Some (se, l) ->
+  exists t, h = groups_text se l ++ t /\ matches cr_rx (groups_text se l).
+Proof. exact scan_groups_rx. Qed.
+Print Assumptions C06_cr_scan_groups.
+
+(* ContentRange.parse(str(cr)) = cr for EVERY (start, stop, length) valid for a response (None combinations
+   included), numbers within CPython's int-from-text digit limit *)
+Theorem C06_cr_parse_str_roundtrip : forall s e l,
+  is_cr_valid s e l true = true -> fits_cr s e l ->
+  cr_parse (content_range_str (CR s e l)) = PSome (CR s e l)
+  /\ parse_content_range (Some (content_range_str (CR s e l))) = Some (CR s e l).
+Proof. intros s e l Hv Hf. split; [exact (cr_roundtrip s e l Hv Hf) | exact (header_roundtrip s e l Hv Hf)]. Qed.
+Print Assumptions C06_cr_parse_str_roundtrip.
+
+Example C06_cr_parse_str_roundtrip_ex :
+  is_cr_valid (Some 0) (Some 50) (Some 100) true = true /\ fits_cr (Some 0) (Some 50) (Some 100).
+Proof. split; [exact (proj1 cr_roundtrip_ex) | exact (proj1 (proj2 cr_roundtrip_ex))]. Qed.
+
+(* the round trip does NOT extend to everything ContentRange.__init__ accepts: with stop > length the
+   constructor succeeds, str() prints it, and parse refuses that text (response=True) *)
+Theorem C06_cr_roundtrip_ctor_gap : forall s e l,
+  is_cr_valid (Some s) (Some e) (Some l) false = true -> l < e -> fits s -> fits (e - 1) -> fits l ->
+  cr_parse (content_range_str (CR (Some s) (Some e) (Some l))) = PNone.
+Proof. exact cr_roundtrip_gap. Qed.
+Print Assumptions C06_cr_roundtrip_ctor_gap.
+
+Example C06_cr_roundtrip_ctor_gap_ex :
+  mk_content_range (Some 0) (Some 50) (Some 10) = Some (CR (Some 0) (Some 50) (Some 10))
+  /\ cr_parse (content_range_str (CR (Some 0) (Some 50) (Some 10))) = PNone.
+Proof. exact cr_roundtrip_gap_ex. Qed.
+
+(* for EVERY text: what the parser returns is valid — both None, or 0 <= start < stop (<= length when known) *)
+Theorem C06_cr_parse_sound : forall h s e l, cr_parse h = PSome (CR s e l) ->
+  is_cr_valid s e l true = true /\ cr_wf s e l.
+Proof. exact cr_parse_sound. Qed.
+Print Assumptions C06_cr_parse_sound.
+
+Theorem C06_parse_content_range_sound : forall v s e l,
+  parse_content_range v = Some (CR s e l) -> cr_wf s e l.
+Proof. exact parse_content_range_sound. Qed.
+Print Assumptions C06_parse_content_range_sound.
+
+(* the constructor call inside ContentRange.parse never raises *)
+Theorem C06_cr_parse_ctor_never_raises : forall h, cr_parse h <> PCtorErr.
+Proof. exact cr_parse_ctor_never_raises. Qed.
+Print Assumptions C06_cr_parse_ctor_never_raises.
+
+(* serialize_content_range on a tuple/list: refused exactly when the length is not 2 or 3 or the constructor refuses *)
+Theorem C06_serialize_seq_refused : forall items,
+  serialize_content_range (ASeq items) = SErr <->
+  match items with
+  | [b; e] => is_cr_valid b e None false = false
+  | [b; e; l] => is_cr_valid b e l false = false
+  | _ => True
+  end.
+Proof. exact serialize_seq_refused. Qed.
+Print Assumptions C06_serialize_seq_refused.
+
+(* the Content-Range header of the modelled 206 parses back to exactly the slice served (composition with
+   C06_206_exact), and the one of the 416 to (None, None, length) *)
+Theorem C06_206_content_range_parses_back : forall i s e L,
+  decide i = D206 s e L -> app_ok (r_app i) -> serves_ranges (r_app i) ->
+  fits s -> fits (e - 1) -> fits L ->
+  exists cl v rest chunks,
+    cond_resp_app i = Some (S_206, cl :: (S_CR, v) :: rest, chunks)
+    /\ parse_content_range (Some v) = Some (CR (Some s) (Some e) (Some L))
+    /\ concat chunks = sent_body i (slice (body_of (r_app i)) (Z.to_nat s) (Z.to_nat e)).
+Proof. exact resp_206_cr_parses. Qed.
+Print Assumptions C06_206_content_range_parses_back.
+
+Theorem C06_416_content_range_parses_back : forall i rg L, decide i = D416 rg L -> 0 <= L -> fits L ->
+  exists cl v rest body,
+    cond_resp_app i = Some (S_416, cl :: (S_CR, v) :: rest, body)
+    /\ parse_content_range (Some v) = Some (CR None None (Some L)).
+Proof. exact resp_416_cr_parses. Qed.
+Print Assumptions C06_416_content_range_parses_back.
